@@ -26,7 +26,8 @@ REQUIRED_REACH = ['handler:default', 'handler:contextual', 'handler:reraise', 'h
                   'outcome:http-raised', 'outcome:http-returned', 'outcome:reraised-original', 'fallback-compared',
                   'history:probes-compared', 'deviation-ran', 'msg:surrogate', 'msg:badstr', 'msg:badrepr', 'msg:huge']
 NSHARDS = 16
-HANDLERS = ['default', 'contextual', 'reraise', 'broken-render-error', 'render-error-raises-http', 'render-error-returns-other']
+HANDLERS = ['default', 'contextual', 'reraise', 'broken-render-error', 'render-error-raises-http', 'render-error-returns-other',
+            'reraise+broken-render-error', 'default+debug-flag', 'broken-render-error+debug-flag', 'render-error-returns-other+debug-flag']
 ACCEPTS = [None, 'text/html', 'application/json', 'application/xml', '*/*', 'garbage;;q=', 'text/plain',
            'text/html;q=0.1, application/json',
            # long real-world headers: size and number of ranges must not matter
@@ -35,7 +36,7 @@ ACCEPTS = [None, 'text/html', 'application/json', 'application/xml', '*/*', 'gar
            'application/vnd.verif.t0+json;q=0.9, application/vnd.verif.t1+json;q=0.8, application/vnd.verif.t2+json;q=0.7, application/vnd.verif.t3+json;q=0.6, application/vnd.verif.t4+json;q=0.5, application/vnd.verif.t5+json;q=0.4, application/vnd.verif.t6+json;q=0.3, application/vnd.verif.t7+json;q=0.2, application/vnd.verif.t8+json;q=0.1, application/vnd.verif.t9+json;q=0.9, application/vnd.verif.t10+json;q=0.8, application/vnd.verif.t11+json;q=0.7, application/vnd.verif.t12+json;q=0.6, application/vnd.verif.t13+json;q=0.5, application/vnd.verif.t14+json;q=0.4, application/vnd.verif.t15+json;q=0.3, application/vnd.verif.t16+json;q=0.2, application/vnd.verif.t17+json;q=0.1, application/vnd.verif.t18+json;q=0.9, application/vnd.verif.t19+json;q=0.8, application/xml;q=0.05',
            'image/x-fmt0, image/x-fmt1, image/x-fmt2, image/x-fmt3, image/x-fmt4, image/x-fmt5, image/x-fmt6, image/x-fmt7, image/x-fmt8, image/x-fmt9, image/x-fmt10, image/x-fmt11, image/x-fmt12, image/x-fmt13, image/x-fmt14, image/x-fmt15, image/x-fmt16, image/x-fmt17, image/x-fmt18, image/x-fmt19, image/x-fmt20, image/x-fmt21, image/x-fmt22, image/x-fmt23, image/x-fmt24, image/x-fmt25, image/x-fmt26, image/x-fmt27, image/x-fmt28, image/x-fmt29, image/x-fmt30, image/x-fmt31, image/x-fmt32, image/x-fmt33, image/x-fmt34, image/x-fmt35, image/x-fmt36, image/x-fmt37, image/x-fmt38, image/x-fmt39, text/html;q=0.3',
            'text/plain;q=0.4, audio/x-0;q=0.9, audio/x-1;q=0.9, audio/x-2;q=0.9, audio/x-3;q=0.9, audio/x-4;q=0.9, audio/x-5;q=0.9, audio/x-6;q=0.9, audio/x-7;q=0.9, audio/x-8;q=0.9, audio/x-9;q=0.9, audio/x-10;q=0.9, audio/x-11;q=0.9, audio/x-12;q=0.9, audio/x-13;q=0.9, audio/x-14;q=0.9, audio/x-15;q=0.9, audio/x-16;q=0.9, audio/x-17;q=0.9, audio/x-18;q=0.9, audio/x-19;q=0.9, audio/x-20;q=0.9, audio/x-21;q=0.9, audio/x-22;q=0.9, audio/x-23;q=0.9, audio/x-24;q=0.9, audio/x-25;q=0.9, audio/x-26;q=0.9, audio/x-27;q=0.9, audio/x-28;q=0.9, audio/x-29;q=0.9, audio/x-30;q=0.9, audio/x-31;q=0.9, audio/x-32;q=0.9, audio/x-33;q=0.9, audio/x-34;q=0.9, audio/x-35;q=0.9, audio/x-36;q=0.9, audio/x-37;q=0.9, audio/x-38;q=0.9, audio/x-39;q=0.9, audio/x-40;q=0.9, audio/x-41;q=0.9, audio/x-42;q=0.9, audio/x-43;q=0.9, audio/x-44;q=0.9, audio/x-45;q=0.9, audio/x-46;q=0.9, audio/x-47;q=0.9, audio/x-48;q=0.9, audio/x-49;q=0.9, audio/x-50;q=0.9, audio/x-51;q=0.9, audio/x-52;q=0.9, audio/x-53;q=0.9, audio/x-54;q=0.9, audio/x-55;q=0.9, audio/x-56;q=0.9, audio/x-57;q=0.9, audio/x-58;q=0.9, audio/x-59;q=0.9, audio/x-60;q=0.9, audio/x-61;q=0.9, audio/x-62;q=0.9, audio/x-63;q=0.9, audio/x-64;q=0.9, audio/x-65;q=0.9, audio/x-66;q=0.9, audio/x-67;q=0.9, audio/x-68;q=0.9, audio/x-69;q=0.9']
-RETURNS = ['Response', 'str', 'None', 'int', 'dict', 'list', 'bytes', 'float']
+RETURNS = ['Response', 'BaseResponse', 'str', 'None', 'int', 'dict', 'list', 'bytes', 'float']
 EXC_KINDS = ['ValueError', 'KeyError', 'TypeError', 'RuntimeError', 'ZeroDivisionError', 'AttributeError', 'IndexError',
              'OSError', 'UnicodeDecodeError', 'AssertionError', 'LookupError', 'Custom', 'NoArgs', 'NonStrArgs',
              'NameError', 'StopIteration', 'RecursionError', 'NotImplementedError']
@@ -106,7 +107,10 @@ def perform(act, tr):
     kind = act[0]
     if kind == 'return':
         v = act[1]
+        from werkzeug.wrappers import BaseResponse
         return {'Response': lambda: Response('scripted-response', mimetype='text/plain'),
+                # the bare base class is a response too (clastic re-exports it)
+                'BaseResponse': lambda: BaseResponse('bare response', status=202, mimetype='text/plain'),
                 'str': lambda: 'just text', 'None': lambda: None, 'int': lambda: 42, 'float': lambda: 1.5,
                 'dict': lambda: {'k': 'v'}, 'list': lambda: [1, 2], 'bytes': lambda: b'raw'}[v]()
     if kind == 'raise':
@@ -187,11 +191,13 @@ def make_handler(kind):
             def render_error(self, request, _error):
                 raise errors.NotFound('no template for error pages')      # fails with an HTTP error of its own
         return MissingTemplate()
-    if kind == 'broken-render-error':
+    if kind in ('broken-render-error', 'reraise+broken-render-error'):
         class BrokenRender(errors.ErrorHandler):
             def render_error(self, request, _error):
                 raise RuntimeError('render_error itself failed')
-        return BrokenRender()
+        # re-raising is about *uncaught exceptions of the application*; a renderer that fails while an HTTP error is being
+        # rendered still falls back to the default rendering
+        return BrokenRender(reraise_uncaught=(kind == 'reraise+broken-render-error'))
 
     class Replacing(errors.ErrorHandler):
         def render_error(self, request, _error):
@@ -212,6 +218,9 @@ def build_app(kind):
         routes.append(Route('/d%d/spyrender' % depth, ep, rn, middlewares=mws[:depth]))
     routes.append(Route('/ok', lambda: Response('fine', mimetype='text/plain')))
     routes.append(Route('/item/<x>', lambda x: Response('item %s' % x, mimetype='text/plain'), methods=['GET']))
+    # '+debug-flag': the application is told debug=True *and* given its handler explicitly - the handler is what counts
+    if kind.endswith('+debug-flag'):
+        return Application(routes, error_handler=make_handler(kind[:-len('+debug-flag')]), debug=True)
     return Application(routes, error_handler=make_handler(kind))
 
 
@@ -255,6 +264,12 @@ def send(app, case):
 
 
 def expected(case):
+    if case['handler'].endswith('+debug-flag'):
+        return expected(dict(case, handler=case['handler'][:-len('+debug-flag')]))
+    return _expected(case)
+
+
+def _expected(case):
     """-> ('status', code) | ('escape-original',) | ('escape-typeerror',)"""
     from clastic import errors
     act, where, handler = case['act'], case['where'], case['handler']
@@ -265,17 +280,19 @@ def expected(case):
             return ('status', 409)
         return ('status', code)
     if act[0] == 'raise':
-        if handler == 'reraise':
+        if handler in ('reraise', 'reraise+broken-render-error'):
             return ('escape-original',)
         return ('status', 409 if handler == 'render-error-returns-other' else 500)
     v = act[1]
     if v == 'Response':
         return ('status', 200)
+    if v == 'BaseResponse':
+        return ('status', 202)
     # a non-Response value: becomes the render context if produced on the endpoint side of a rendered route
     endpoint_side = where == 'ep' or '.endpoint.' in where
     if endpoint_side and not norender:
         return ('status', 200)
-    if handler == 'reraise':
+    if handler in ('reraise', 'reraise+broken-render-error'):
         return ('escape-typeerror',)
     return ('status', 409 if handler == 'render-error-returns-other' else 500)
 
@@ -336,7 +353,7 @@ def judge(sh, case, record=True):
     elif act[0] == 'return_http':
         sh.hit('outcome:http-returned')
     # a failing render_error must fall back to the default rendering of the same error
-    if case['handler'] in ('broken-render-error', 'render-error-raises-http') and ex.status >= 400:
+    if case['handler'] in ('broken-render-error', 'render-error-raises-http', 'reraise+broken-render-error', 'broken-render-error+debug-flag') and ex.status >= 400:
         ctrl, _ = send(app_for('default'), case)
         sh.hit('fallback-compared')
         if (ctrl.status, ctrl.header('Content-Type'), norm_body(ctrl.body)) != (ex.status, ex.header('Content-Type'), norm_body(ex.body)):
